@@ -22,8 +22,8 @@ def b01 (b : Bool) : String := if b then "1" else "0"
 
 def showCall : HCall → String
   | .openat d n fl m => s!"openat({fdS d},{hx n},{fl},{m})"
-  | .reopen f fl => s!"reopen({fdS f},{fl})"
-  | .openByHandle h fl => s!"open_by_handle(g{h},{fl})"
+  | .reopen f fl _ => s!"reopen({fdS f},{fl})"
+  | .openByHandle h fl _ => s!"open_by_handle(g{h},{fl})"
   | .nameToHandle f fl => s!"name_to_handle({fdS f},,{fl})"
   | .statx f n fl m => s!"statx({fdS f},{hx n},{fl},{m})"
   | .fstatat f n fl => s!"fstatat({fdS f},{hx n},{fl})"
